@@ -16,6 +16,9 @@ use world::*;
 const NACC: usize = ACCOUNTS.len();
 
 struct StepOut {
+    /// the pick handed to the model: the id the minter reported, or -- when the call failed -- some id that
+    /// was still mintable, so that a call the model would accept is not hidden behind an illegal pick
+    oracle: u64,
     pre_cw2: (String, String),
     ok: bool,
     err: String,
@@ -305,7 +308,8 @@ fn run_case(case: &Case) -> Result<RunOut, String> {
                 out.violations.push((k, what, i));
             }
         }
-        out.steps.push(StepOut { pre_cw2: pre.cw2.clone(), ok, err, pick, post: post.clone() });
+        let oracle = if ok { pick } else { pre.positions.first().map(|p| p.1 as u64).unwrap_or(0) };
+        out.steps.push(StepOut { oracle, pre_cw2: pre.cw2.clone(), ok, err, pick, post: post.clone() });
         pre = post;
     }
     Ok(out)
@@ -316,7 +320,7 @@ fn case_coq(case: &Case, r: &RunOut) -> String {
         .steps
         .iter()
         .zip(r.steps.iter())
-        .map(|(s, o)| format!("({}, {}, {})", s.at, op_coq(&s.op, o.pick, &o.pre_cw2), obs_coq(o.ok, &o.post, cw2_after(&s.op, &o.post).as_ref())))
+        .map(|(s, o)| format!("({}, {}, {})", s.at, op_coq(&s.op, o.oracle, &o.pre_cw2), obs_coq(o.ok, &o.post, cw2_after(&s.op, &o.post).as_ref())))
         .collect::<Vec<_>>()
         .join("; ");
     format!("C17Case {} {} [{}]", cfg_coq(case), obs_coq(true, &r.init, None), steps)
